@@ -1414,3 +1414,33 @@ def storageiface(facts: CppFacts, templates: Templates):
     res.samples = [f"called on backing_: {called}"]
     res.analysed = [TEMPLATES, "runtime/cpp/emboss_memory_util.h"]
     return res
+
+
+def wsagree(facts: CppFacts):
+    """R-WSAGREE (C06): the text reader has one notion of blank space in two places.  `ReadToken` ends a word at ' ', '\\t',
+    '\\n', '\\r' (and '#', punctuation); `DiscardWhitespace` must skip exactly those blank characters before the next
+    token, or a blank that ends one token becomes the first character of the next (`"\\tcount"`) and the field name no
+    longer matches.  Decided: the character sets compared in the two loops are equal, and contain the four blanks the
+    writer can emit (the indent string of multi-line output is user-chosen: tabs are common)."""
+    res = RuleResult("R-WSAGREE")
+    FILE = "runtime/cpp/emboss_text_util.h"
+    fn = {f.name: f for f in facts.functions if f.name in ("DiscardWhitespace", "ReadToken")}
+    if set(fn) != {"DiscardWhitespace", "ReadToken"}:
+        raise AnalysisError(f"text reader: found only {sorted(fn)}")
+
+    def chars(body, op):
+        return set(re.findall(r"\bc\s*" + op + r"\s*'(\\?.)'", _CM.sub("", body)))
+    skip = chars(fn["DiscardWhitespace"].body.split("while")[-1], "==")
+    stop = chars(fn["ReadToken"].body, "!=") - {"#"}
+    res.instances = 2
+    BLANKS = {" ", "\\t", "\\n", "\\r"}
+    if skip != stop:
+        res.add(f"{FILE}|DiscardWhitespace|disagree", f"DiscardWhitespace skips {sorted(skip)} but ReadToken ends a token at {sorted(stop)}: "
+                f"{sorted(stop - skip) or sorted(skip - stop)} terminates a token without being skipped before the next one, so "
+                "multi-line text indented with it cannot be read back", FILE, fn["DiscardWhitespace"].line, "DiscardWhitespace")
+    if not BLANKS <= skip:
+        res.add(f"{FILE}|DiscardWhitespace|blanks", f"DiscardWhitespace does not skip {sorted(BLANKS - skip)}", FILE,
+                fn["DiscardWhitespace"].line, "DiscardWhitespace")
+    res.samples = [f"skip={sorted(skip)} stop={sorted(stop)}"]
+    res.analysed = [FILE]
+    return res
